@@ -57,7 +57,7 @@ def gen():
         op = st.one_of(upd, upd, upd, upd, upd, pair, st.tuples(st.just("repeat"), st.integers(0, 20)), st.tuples(st.just("repeat"), st.integers(0, 20)), st.tuples(st.just("extract"), st.integers(0, 20)),
                        st.tuples(st.just("logprob"), st.integers(0, 20))).map(list)
         return {"spec": spec, "ops": draw(st.lists(op, min_size=4, max_size=12)), "pending": draw(st.booleans()), "clash": draw(st.booleans()),
-                "dep_bij": draw(st.booleans()), "int_var": draw(st.booleans()), "user_lp": draw(st.integers(0, 3)) == 0, "bool_var": draw(st.booleans()), "extra_node": draw(st.booleans()), "alias": draw(st.integers(0, 3)) == 0, "hi": [draw(st.sampled_from([1.5, 2.5, 3.0])) for _ in range(4)]}
+                "dep_bij": draw(st.booleans()), "int_var": draw(st.booleans()), "user_lp": draw(st.sampled_from([0, 0, 0, 1, 2, 3])), "bool_var": draw(st.booleans()), "extra_node": draw(st.booleans()), "alias": draw(st.integers(0, 3)) == 0, "hi": [draw(st.sampled_from([1.5, 2.5, 3.0])) for _ in range(4)]}
 
     return g()
 
@@ -144,7 +144,13 @@ def oracle(case):
         if case.get("user_lp"):
             # user-supplied joint density (GraphBuilder.log_prob_node): a tempered sum of the generated variables' log-densities
             dns = [v.dist_node for v in lvars if v.dist_node is not None]
-            if dns:
+            kind = int(case["user_lp"])
+            if kind == 3:
+                # a density the user computes from the variables' values, in a node that caches nothing (transient)
+                gb.log_prob_node = lsl.TransientCalc(lambda *vs: -0.25 * sum(jnp.sum(jnp.square(jnp.asarray(v, dtype=jnp.float32))) for v in vs), *lvars, _name="own_lp")
+            elif dns and kind == 2:
+                gb.log_prob_node = lsl.TransientCalc(lambda *lps: 0.5 * sum(jnp.sum(lp) for lp in lps), *dns, _name="tempered_lp")
+            elif dns:
                 gb.log_prob_node = lsl.Calc(lambda *lps: 0.5 * sum(jnp.sum(lp) for lp in lps), *dns, _name="tempered_lp")
         return gb.build_model()
 
